@@ -74,6 +74,18 @@ class NpShim:
         USED.add("np.empty")
         return _obj_fill(shape, 0)
 
+    def zeros_like(self, other, dtype=None, **k):
+        if isinstance(other, np.ndarray) and other.dtype == object and dtype in (None, float, np.float64, object):
+            USED.add("np.zeros_like")
+            return _obj_fill(np.shape(other), 0)
+        return np.zeros_like(other, dtype=dtype, **k)
+
+    def ones_like(self, other, dtype=None, **k):
+        if isinstance(other, np.ndarray) and other.dtype == object and dtype in (None, float, np.float64, object):
+            USED.add("np.ones_like")
+            return _obj_fill(np.shape(other), 1)
+        return np.ones_like(other, dtype=dtype, **k)
+
     def empty_like(self, other, dtype=None, **k):
         if dtype is None and isinstance(other, np.ndarray) and other.dtype != object:
             return np.empty_like(other, **k)
